@@ -99,9 +99,12 @@ def fromLsb0Aligned (dbg : Bool) (offset : Nat) (bytes : List Nat) : Option Bitm
   if bytes.isEmpty then some []
   else
     let len := bytes.length
-    -- `u32::try_from(len)`, `checked_mul(8)`, `offset.checked_add(len_bits - 1)`, `.expect(..)`
-    if len > u32Max then none
-    else if len * 8 > u32Max then none
+    -- `u64::try_from(len)`, `checked_mul(8)`, `u64::from(offset).checked_add(len_bits - 1)` (all in `u64`,
+    -- `wMax` = `u64::MAX`), `u32::try_from(end_bit_inc)`, `.expect(..)`   (the fix of defect D8: the length in
+    -- bits used to be computed with `u32::checked_mul`, which overflowed for a slice of exactly 2^29 bytes)
+    if len > wMax then none
+    else if len * 8 > wMax then none
+    else if offset + (len * 8 - 1) > wMax then none
     else if offset + (len * 8 - 1) > u32Max then none
     else
       let endBitInc := offset + (len * 8 - 1)
